@@ -254,6 +254,8 @@ where
     A: Allocator,
 {
     pub fn with_capacity(capacity: usize, allocator: A) -> Result<Self, MapError> {
+        // probing relies on a power of two capacity
+        let capacity = pad_pot(capacity).max(4);
         unsafe {
             let (keys, values) = Self::alloc_storage(&allocator, capacity)?;
             let res = Self {
@@ -604,6 +606,9 @@ unsafe impl<T, A> Sync for HandleTable<T, A> where A: Allocator + Sync {}
 
 #[inline]
 fn pad_pot(cap: usize) -> usize {
+    if cap <= 1 {
+        return 1;
+    }
     let mut n = cap - 1; // to handle the case when cap is already POT
     while (n & (n - 1)) != 0 {
         n = n & (n - 1); // unset the rightmost bit
